@@ -55,8 +55,12 @@ namespace vh
             if (d.has("ov"))
                 for (auto& e : d["ov"].a)
                     ov[static_cast<size_t>((*e)[0].as_int())] = to_status((*e)[1].as_int());
-            return std::make_unique<G>(
-                static_cast<size_t>(d["n"].as_int()), d["dx"].as_double() * sc, b, ov);
+            size_t n = static_cast<size_t>(d["n"].as_int());
+            // "via": "from_length": the factory that takes the total length (exact here: small
+            // integer spacings times a power of two)
+            if (d.get_str("via", "") == "from_length" && n >= 2)
+                return std::make_unique<G>(G::from_length(n, d["dx"].as_double() * sc * static_cast<double>(n - 1), b, ov));
+            return std::make_unique<G>(n, d["dx"].as_double() * sc, b, ov);
         }
     };
 
@@ -80,6 +84,13 @@ namespace vh
                         = to_status((*e)[2].as_int());
             typename G::shape_type shape{ static_cast<size_t>(d["nr"].as_int()),
                                           static_cast<size_t>(d["nc"].as_int()) };
+            if (d.get_str("via", "") == "from_length" && shape[0] >= 2 && shape[1] >= 2)
+                return std::make_unique<G>(G::from_length(
+                    shape,
+                    typename G::length_type{ d["dy"].as_double() * sc * static_cast<double>(shape[0] - 1),
+                                             d["dx"].as_double() * sc * static_cast<double>(shape[1] - 1) },
+                    b,
+                    ov));
             return std::make_unique<G>(
                 shape,
                 typename G::spacing_type{ d["dy"].as_double() * sc, d["dx"].as_double() * sc },
